@@ -244,3 +244,110 @@ Example C19_example_session_guard :
              session_guard S_ex ns_tree bf (session_calls reqs None true) = true /\
              forallb call_named (session_calls reqs None true) = true.
 Proof. exact flagship_example. Qed.
+
+(** * Deletions stay in force across namespace switches (Proofs/C19_deletions.v)
+
+    [Config._deletions] is a tree of marks; [masked D p] = [p] or a section
+    above it carries a mark.  [keeps p o] = [o] is an operation of a task body
+    (or a reload) that does not WRITE [p] or a section above it;
+    [nobody_writes p bodies calls] = no body of [calls] does. *)
+From InvokeVerif Require Import Proofs.C19_deletions.
+
+(** A successful [del] by a task body is on record afterwards ([pop] and
+    [popitem] likewise).  No guard: by construction of the model. *)
+Theorem C19_deletion_recorded : forall fs c fl kp k,
+  snd (step fs c (Del fl kp k)) = ONone ->
+  masked (c_dels (fst (step fs c (Del fl kp k)))) (kp ++ [k]) = true.
+Proof. exact del_records. Qed.
+
+Theorem C19_pop_recorded : forall fs c fl kp k dflt d t,
+  nav fl (c_cache c) kp = Ok d -> get k d = Some t ->
+  snd (step fs c (Pop fl kp k dflt)) = OVal t ->
+  masked (c_dels (fst (step fs c (Pop fl kp k dflt)))) (kp ++ [k]) = true.
+Proof. exact pop_records. Qed.
+
+Theorem C19_popitem_recorded : forall fs c fl kp k t,
+  snd (step fs c (PopItem fl kp)) = OPair k t ->
+  masked (c_dels (fst (step fs c (PopItem fl kp)))) (kp ++ [k]) = true.
+Proof. exact popitem_records. Qed.
+
+(** Nothing but a write to [p] or to a section above it takes the mark away:
+    not a reload of the collection level or of the environment (whatever is
+    loaded -- [LoadCollection t] for EVERY [t], with or without the key), not
+    any other edit, read or deletion.  No guard. *)
+Theorem C19_deletion_mark_survives : forall fs c o p,
+  keeps p o = true -> masked (c_dels c) p = true -> masked (c_dels (fst (step fs c o))) p = true.
+Proof. exact step_keeps_mask. Qed.
+
+(** ... and a marked path is hidden in ANY (well-formed) freshly merged data,
+    also in data that do not have the key (any more): [merge()] ends with
+    [obliterate cache deletions]. *)
+Theorem C19_mark_hides_with_or_without_key : forall D X p,
+  wf (Node D) = true -> wf (Node X) = true -> masked D p = true ->
+  shape_at p (Node (obliterate X (Node D))) = None.
+Proof. exact masked_hidden. Qed.
+
+(** The session statement: a deletion on record stays in force in EVERY later
+    execution of the session -- named calls, pre-/post-tasks and the implicit
+    default task alike, in whatever namespace, whatever collection level is
+    loaded for them (also levels that lack the deleted key) -- on entry to and
+    on exit from the body, until some body writes [p] or a section above it
+    again.
+    Guard (booleans): [session_guard_any] = the guard of
+    [C19_session_views_partial] with calls without a name admitted (they are
+    loaded with [configuration_none]): every call's collection level conforms
+    to the schema [S], every body edit is inside C06's [op_ok S] (leaf-valued
+    writes); [nobody_writes].  [good S c J] is C06's invariant (it holds of the
+    start state by [good0_good] and is kept by every guarded step).
+    Missing for full strength: dict-valued writes (F-C06a territory) and
+    levels outside one schema. *)
+Theorem C19_deletion_stays_in_force_partial :
+  forall S fs ns bodies, is_node S = true -> forall calls c J envs p,
+  good S c J -> session_guard_any S ns bodies calls = true ->
+  masked (c_dels c) p = true -> nobody_writes p bodies calls = true ->
+  Forall (gone_in p) (fst (run_calls fs ns c bodies calls envs)).
+Proof. exact deletion_stays. Qed.
+
+(** Non-vacuity, the three-step history: root{shared} > a{build:{flags,jobs},
+    artifact} > first, last ; b{lint} > mid.  `a.first b.mid a.last`, [first]
+    deletes build.flags and artifact (only [a] supplies them).  [c1_r] is the
+    state after [first]: the hypotheses of the theorem hold there for the
+    rest of the session, [mid]'s data have no [build] at all, and [last]
+    sees [a]'s settings minus what [first] deleted. *)
+Example C19_example_three_step_history :
+  let reqs := [("a.first", leaf_call 1); ("b.mid", leaf_call 2); ("a.last", leaf_call 3)] in
+  let rest := [(2, Some "b.mid"); (3, Some "a.last")] in
+  build ns_script_r = Ok ns_r /\
+  good S_r c1_r J1_r /\
+  masked (c_dels c1_r) ["build"; "flags"] = true /\ masked (c_dels c1_r) ["artifact"] = true /\
+  session_guard_any S_r ns_r bf_r rest = true /\
+  nobody_writes ["build"; "flags"] bf_r rest = true /\ nobody_writes ["artifact"] bf_r rest = true /\
+  exists va va' vb vl outs,
+    session ns_r init_r bodies_r reqs None true [[]]
+      = Ok ([(1, va, outs, va'); (2, vb, [], vb); (3, vl, [], vl)], None) /\
+    run_calls [] ns_r c1_r bf_r rest [[]] = ([(2, vb, [], vb); (3, vl, [], vl)], None) /\
+    leaf_at ["build"; "flags"] (Node va) = Some (VStr "-O2") /\
+    leaf_at ["artifact"] (Node va) = Some (VStr "a.tar") /\
+    lookup ["build"] (Node vb) = None /\ leaf_at ["marker"] (Node vb) = Some (VStr "m") /\
+    leaf_at ["build"; "jobs"] (Node vl) = Some (VInt 4) /\
+    leaf_at ["build"; "flags"] (Node vl) = None /\ leaf_at ["artifact"] (Node vl) = None /\
+    leaf_at ["marker"] (Node vl) = Some (VStr "m").
+Proof. exact three_step_history. Qed.
+
+(** The same with the other namespace as a POST-TASK of the deleting task (a
+    call without a name: outside [session_guard], inside [session_guard_any])
+    and a whole section deleted. *)
+Example C19_example_three_step_history_hook :
+  let reqs := [("a.first", SCall 1 [] [leaf_call 2]); ("a.last", leaf_call 3)] in
+  let rest := [(2, None); (3, Some "a.last")] in
+  session_calls reqs None true = (1, Some "a.first") :: rest /\
+  good S_r c1_r2 (journal [] c2_r (bf_r2 1)) /\
+  masked (c_dels c1_r2) ["build"] = true /\ masked (c_dels c1_r2) ["build"; "jobs"] = true /\
+  session_guard_any S_r ns_r bf_r2 rest = true /\ session_guard S_r ns_r bf_r2 rest = false /\
+  nobody_writes ["build"] bf_r2 rest = true /\
+  exists va va' vb vl outs,
+    session ns_r init_r bodies_r2 reqs None true [[]]
+      = Ok ([(1, va, outs, va'); (2, vb, [], vb); (3, vl, [], vl)], None) /\
+    lookup ["build"] (Node va) <> None /\ lookup ["build"] (Node vb) = None /\
+    lookup ["build"] (Node vl) = None /\ leaf_at ["artifact"] (Node vl) = Some (VStr "a.tar").
+Proof. exact three_step_history_hook. Qed.
